@@ -102,14 +102,22 @@ func normalizeHostname(hostname string) (norm string, err error) {
 // generated from the IP address, or an empty string.
 func (s *v4Server) validHostnameForClient(cliHostname string, ip netip.Addr) (hostname string) {
 	hostname, err := normalizeHostname(cliHostname)
+	if err == nil && hostname != "" {
+		err = netutil.ValidateHostname(hostname)
+	}
+
 	if err != nil {
+		// The hostname sent by the client can't be used, so treat it the same
+		// way as an absent one.
 		log.Info("dhcpv4: %s", err)
+		hostname = ""
 	}
 
-	if hostname == "" {
-		hostname = aghnet.GenerateHostname(ip)
+	if hostname != "" {
+		return hostname
 	}
 
+	hostname = aghnet.GenerateHostname(ip)
 	err = netutil.ValidateHostname(hostname)
 	if err != nil {
 		log.Info("dhcpv4: %s", err)
